@@ -23,7 +23,8 @@ RULE = ('fixed corpus of boundary scripts (each class alone, RHS-then-LHS, every
         'structured random scripts rendered from a kept AST (1-5 equations over a small name pool so that names repeat with '
         'different roles and offsets) x random options x span lengths around LAGS+LEADS; malformed stream = C01-grammar scripts '
         'and their mutations.  Non-trivial = accepted with >= 2 classes or a lag/lead or a non-default option, or rejected by a '
-        'symbol conflict / double definition; distinct by hash of the case.')
+        'symbol conflict / double definition; distinct by hash of the case.  Spans of seven kinds (list, range, NumPy array, strings, '
+        'pandas PeriodIndex / DatetimeIndex / Index): positions and labels of the default range and of solve().')
 TRUSTED = ['extraction of the parser and class-building models to OCaml (ExtrOcamlBasic + ExtrOcamlString only) and coq/Extract/Build/driver.ml',
            'harness/build_common.py, harness/parser_common.py (encoders, driver runner, script generators)']
 ASSUMPTIONS = ['scripts are Latin-1 strings; str.format fields outside the modelled fragment are skipped (PUnmodelled)',
@@ -127,6 +128,30 @@ def is_safe(ast):
     return all(t[0] in 'vpen' and not isinstance(t[2] if t[0] != 'n' else None, (list, tuple)) for eq in ast for t in [eq[0]] + eq[1])
 
 
+SPANS = ['list', 'range', 'numpy', 'strings', 'pandas_period', 'pandas_datetime', 'pandas_index']
+
+
+def make_span(kind, n):
+    """a span of n distinct labels of the given kind (the default range must not depend on the kind)"""
+    if kind == 'list':
+        return list(range(100, 100 + n))
+    if kind == 'range':
+        return range(100, 100 + n)
+    if kind == 'strings':
+        return ['p%03d' % i for i in range(n)]
+    if kind == 'numpy':
+        import numpy as np
+        return np.arange(100, 100 + n)
+    import pandas as pd
+    if kind == 'pandas_period':
+        return pd.period_range(start='2000', periods=n, freq='Y')
+    if kind == 'pandas_datetime':
+        return pd.date_range(start='2000-01-01', periods=n, freq='QS')
+    if kind == 'pandas_index':
+        return pd.Index(['p%03d' % i for i in range(n)])
+    raise ValueError(kind)
+
+
 # --------------------------------------------------------------------------- implementation
 def impl(case):
     import fsic
@@ -150,13 +175,18 @@ def impl(case):
     o.update(endo=list(M.ENDOGENOUS), exo=list(M.EXOGENOUS), par=list(M.PARAMETERS), err=list(M.ERRORS), names=list(M.NAMES),
              lags=M.LAGS, leads=M.LEADS)
     n = case['n']
+    span = make_span(case.get('span', 'list'), n)
+    labels_of = [str(x) for x in span]
     try:
-        m = M(list(range(100, 100 + n)))
+        m = M(span)
     except BaseException as e:      # noqa: BLE001
         o['inst_exc'] = type(e).__name__
         return o
     try:
-        o['range'] = [int(t) for t, _ in m.iter_periods()]
+        pairs = list(m.iter_periods())
+        o['range'] = [int(t) for t, _ in pairs]
+        # the labels yielded are the labels of the span at those positions
+        o['labels_match'] = [str(p) for _, p in pairs] == [labels_of[int(t)] for t, _ in pairs]
     except BaseException as e:      # noqa: BLE001
         o['range_exc'] = type(e).__name__
     if case.get('solve'):
@@ -164,8 +194,9 @@ def impl(case):
         for k, name in enumerate(m.names):
             m[name] = np.linspace(0.1, 0.9, n) * (1 + 0.1 * k) if n else m[name]
         try:
-            labels = m.solve(max_iter=3, failures='ignore', errors='ignore')[0]
-            o['solve_labels'] = [int(x) - 100 for x in labels]
+            labels, indexes, _solved = m.solve(max_iter=3, failures='ignore', errors='ignore')
+            o['solve_labels'] = [int(i) for i in indexes]
+            o['solve_labels_match'] = [str(x) for x in labels] == [labels_of[int(i)] for i in indexes]
         except BaseException as e:      # noqa: BLE001
             o['solve_exc'] = type(e).__name__
     return o
@@ -332,6 +363,8 @@ def oracle(case, o):
         else:
             if o.get('range') not in (None, []) or o.get('range_exc') not in (None, 'IndexError'):
                 out.append(_f('default-range', 'infeasible', 'no feasible period, got %r' % (o.get('range', o.get('range_exc')),)))
+        if o.get('labels_match') is False or o.get('solve_labels_match') is False:
+            out.append(_f('default-range', 'labels', 'the labels returned are not the labels of the span at the returned positions'))
         if case.get('solve') and opts['lags'] is None and opts['leads'] is None:
             if want and n > 0:
                 if o.get('solve_labels') != want:
@@ -395,6 +428,8 @@ def shrink_candidates(case):
             yield dict(c, n=n)
     if c.get('solve'):
         yield dict(c, solve=False)
+    if c.get('span', 'list') != 'list':
+        yield dict(c, span='list')
 
 
 # --------------------------------------------------------------------------- generator
@@ -488,6 +523,9 @@ def gen(rng, tier):
         for _ in range(6 if big else 2):
             o = _opts(rng)
             cases.append({'script': script, 'ast': None, 'expect': exp, 'opts': o, 'n': _ns(rng, _need(exp, o)), 'solve': False})
+        for kind in SPANS[1:]:
+            cases.append({'script': script, 'ast': None, 'expect': exp, 'opts': {}, 'n': rng.choice([need - 1, need, need + 1, need + 3]) if need > 0 else 3,
+                          'solve': False, 'span': kind})
     # the option lattice, exhaustively
     for script in (LATTICE_SCRIPTS if big else LATTICE_SCRIPTS[1:3]):
         exp = dict(CORPUS)[script] if script in dict(CORPUS) else None
@@ -514,7 +552,8 @@ def gen(rng, tier):
         exp = expectation(ast)
         o = _opts(rng) if rng.random() < 0.6 else {}
         solve = safe and 'lags' not in o and 'leads' not in o and is_safe(ast)
-        cases.append({'script': script, 'ast': ast, 'expect': None, 'opts': o, 'n': _ns(rng, _need(exp, o)), 'solve': bool(solve)})
+        cases.append({'script': script, 'ast': ast, 'expect': None, 'opts': o, 'n': _ns(rng, _need(exp, o)), 'solve': bool(solve),
+                      'span': rng.choice(SPANS + ['list', 'list'])})
     # malformed stream
     for _ in range(25000 if big else 2500):
         s = pc.gen_script(rng)
